@@ -122,7 +122,9 @@ static std::string opnd(const Value *V, Ctx &C, int depth) {
   }
   if (isa<ConstantPointerNull>(V))
     return "[\"n\"," + esc(tyStr(V->getType())) + "]";
-  if (isa<UndefValue>(V)) // includes poison
+  if (isa<PoisonValue>(V)) // result of folding an operation that is undefined for its constant operands
+    return "[\"u\"," + esc(tyStr(V->getType())) + ",\"poison\"]";
+  if (isa<UndefValue>(V))
     return "[\"u\"," + esc(tyStr(V->getType())) + "]";
   if (isa<ConstantAggregateZero>(V))
     return "[\"z\"," + esc(tyStr(V->getType())) + "]";
